@@ -35,12 +35,15 @@ def derivative(poly: PolyLike, *diffvars: Union[ndpoly, str, int]) -> ndpoly:
 
     """
     poly = poly_ref = numpoly.aspolynomial(poly)
+    positions = poly_ref.names
 
     for diffvar in diffvars:
         if isinstance(diffvar, str):
             idx = poly.names.index(diffvar)
         elif isinstance(diffvar, int):
-            idx = diffvar
+            # positions refer to the indeterminants of the polynomial passed in;
+            # an earlier pass may have re-ordered the intermediate result
+            idx = poly.names.index(positions[diffvar])
         else:
             diffvar = numpoly.aspolynomial(diffvar)
             exponents, _ = numpoly.remove_redundant_coefficients(
